@@ -83,24 +83,36 @@ def fail_key(tagc, f):
     return "%s [%s] %s" % (f.op, tagc, f.kind)
 
 
+def spec_actions():
+    """Names of all Op actions of ConfParse.tla (from the module text, so that none can be forgotten)."""
+    txt = open(os.path.join(os.path.dirname(os.path.dirname(os.path.abspath(__file__))), "spec", "ConfParse.tla")).read()
+    return sorted(set(re.findall(r"^(Op\w+)\s*==", txt, flags=re.M)))
+
+
 def tlc_behaviours(ctx, cfgs, workers):
-    """Runs the TLC configurations concurrently; returns (script texts, tag classes, results)."""
+    """Runs the TLC configurations concurrently; returns (script texts, tag classes, results, action counts, unjudged)."""
     texts, tags = [], []
     lock = threading.Lock()
     results = {}
     errors = []
+    acts = {}
+    unjudged = [0]
 
     def one(cfg, w):
         def on_beh(b):
-            t = tag_class(b["input"]["cfg"])
             with lock:
+                for a in b["post"]["acts"]:
+                    acts[a] = acts.get(a, 0) + 1
+                if b["op"] != "parse":
+                    unjudged[0] += 1
+                    return
                 sid = len(texts) + 1
                 texts.append(None)
-                tags.append(t)
+                tags.append(tag_class(b["input"]["cfg"]))
             texts[sid - 1] = x_c09.behaviour_script(sid, b)
         try:
-            results[cfg] = run_tlc("MC_ConfParse.tla", cfg, ctx.rundir, on_edge=on_beh, workers=w, env=JAVA_ENV,
-                                   timeout=2400 if ctx.tier == "thorough" else 600)
+            results[cfg] = run_tlc("MC_ConfParse.tla", cfg, ctx.rundir, on_edge=on_beh, workers=w, env=JAVA_ENV, coverage=False,
+                                   timeout=2400 if ctx.tier == "thorough" else 900)
         except Exception as e:          # noqa
             errors.append(e)
     ths = [threading.Thread(target=one, args=(c, w)) for c, w in zip(cfgs, workers)]
@@ -110,7 +122,7 @@ def tlc_behaviours(ctx, cfgs, workers):
         t.join()
     if errors:
         raise errors[0]
-    return texts, tags, results
+    return texts, tags, results, acts, unjudged[0]
 
 
 def asbuilt_demo(ctx):
@@ -160,7 +172,7 @@ def gen_tree(rnd, big):
                 depth = max(0, depth - 1)
             elif r < 0.58 and f < nfiles:
                 g = rnd.randint(f + 1, nfiles)
-                lines.append(L(pad + "%include f%03d.cfg" % g + pad))
+                lines.append(L(pad + "%%include f%03d.cfg" % g + pad))
             elif r < 0.60:
                 lines.append(L("%include nothere.cfg"))
             elif r < 0.64:
@@ -241,28 +253,28 @@ def trace_validation(ctx, exe):
 def run(ctx):
     exe = x_c09.harness(ctx)
     t = ctx.tier
-    texts, tags, results = tlc_behaviours(ctx, ["ConfParse_%s_enum.cfg" % t, "ConfParse_%s_fam.cfg" % t], [3, 2])
-    cov = {}
+    texts, tags, results, acts, unjudged = tlc_behaviours(ctx, ["ConfParse_%s_enum.cfg" % t, "ConfParse_%s_fam.cfg" % t], [3, 2])
     for cfg, res in sorted(results.items()):
         ctx.add("states", res.distinct)
         ctx.add("transitions", res.generated)
         ctx.add("behaviours_emitted", res.edges)
         ctx.cov.setdefault("tlc_runs", []).append({
             "module": "MC_ConfParse.tla", "cfg": cfg, "distinct_states": res.distinct, "states_generated": res.generated,
-            "depth": res.depth, "behaviours_emitted": res.edges, "wall_s": round(res.wall, 1),
-            "actions": {a: list(v) for a, v in sorted(res.coverage.items()) if a[:2] == "Op"}})
-        for a, (d, g) in res.coverage.items():
-            if a.startswith("Op"):
-                cov[a] = cov.get(a, 0) + g
+            "depth": res.depth, "behaviours_emitted": res.edges, "wall_s": round(res.wall, 1)})
         if not res.ok:
             ctx.report("spec:%s" % cfg, "TLC reports a violated property of the specification itself: %s" % (res.violation or "")[:600],
                        {"tlc": res.violation, "cfg": cfg})
-    unt = sorted(a for a, g in cov.items() if g == 0)
-    if unt or not cov:
+    # vacuity guard: every action of the module is taken in at least one emitted behaviour (ghost variable `acts`)
+    ctx.cov["actions_taken_in_behaviours"] = {a: acts.get(a, 0) for a in spec_actions()}
+    ctx.cov["behaviours_outside_universe_not_judged"] = unjudged
+    log("TLC done: %d behaviours, %.0fs" % (len(texts), time.time() - ctx.t0))
+    unt = sorted(a for a in spec_actions() if not acts.get(a))
+    if unt:
         raise Broken("vacuity: actions never taken: %s" % unt)
     if not texts:
         raise Broken("no behaviours emitted")
     asbuilt_demo(ctx)
+    log("as-built demo done %.0fs" % (time.time() - ctx.t0))
 
     t0 = time.time()
     fails, _, ns, nt = run_scripts(exe, [], texts, ctx.rundir, jobs=4, tag="beh")
@@ -295,7 +307,9 @@ def run(ctx):
                 s = texts[i]
                 ctx.sample({"family": tg, "script": [ln[:160] for ln in s.split("\n")[1:-2]][-3:]})
                 break
+    log("replay done %.0fs, %d failing" % (time.time() - ctx.t0, len(failed_sids)))
     trace_validation(ctx, exe)
+    log("trace validation done %.0fs" % (time.time() - ctx.t0))
     ctx.cov["exhaustive"] = True
     ctx.cov["rule"] = ("every complete behaviour TLC generates for ConfParse in the bounded scope (file tree x registered contexts) is "
                        "materialised and parsed by the implementation once; recorded handler calls (handler, kind, text, state in/out), "
